@@ -2,6 +2,10 @@
 #![allow(unused_imports, dead_code)]
 use crate::parser::verif_reexport::*;
 use crate::types::*;
+use crate::parser::error::Error;
+use crate::parser::types::ParseResult;
+use crate::types::jpeg::MAX_JPEG_HEADER;
+use log::*;
 
 include!("verif_blocks.rs");
 
@@ -241,4 +245,26 @@ fn u16_4_alpha_4bit_pack() {
     let a = px[i][3] as u32;
     let want = ((a * 15 * 2 + 255) / (255 * 2)) as u8;
     assert!(nib == want, "nibble i is the alpha of pixel i quantised to 4 bits");
+}
+
+// ------------------------------------------------------------------------------------ U05.9 JPEG content locator walk
+fn no_ext<'a>(_: usize) -> Result<Option<&'a [u8]>, Box<dyn std::error::Error>> {
+    Ok(None)
+}
+
+// @harness unit=U05.9 props=C05 kind=complete timeout=600 target="parser/jpeg.rs: JPEG header-size read (E11 block): every u32 header size, content <= 8 bytes" oracle=blp_total
+#[kani::proof]
+#[kani::unwind(12)]
+#[kani::stub(alloc::fmt::format, stub_format)]
+fn u05_9_jpeg_header_size_total() {
+    let content: [u8; 8] = kani::any();
+    let clen: usize = kani::any();
+    kani::assume(clen <= 8);
+    match blk_jpeg_header_read(&content[..clen]) {
+        Ok(hd) => {
+            assert!(clen >= 4 && hd.len() == u32::from_le_bytes([content[0], content[1], content[2], content[3]]) as usize + 2, "header is header_size + 2 bytes");
+            core::mem::forget(hd)
+        }
+        Err(e) => core::mem::forget(e),
+    }
 }
